@@ -561,8 +561,10 @@ func ruleAssociativity(c *Ctx, t *tables, a *parserAnchors) {
 	}
 	// (b)/(c) per infix entry
 	rightAssoc := map[int64]bool{}
-	for _, n := range refOrder[0] {
-		rightAssoc[t.tc.byName[n]] = true
+	for k := range t.pt.infix {
+		if refRightAssoc[refLexemeOf(t, k)] {
+			rightAssoc[k] = true
+		}
 	}
 	var keys []int64
 	for k := range t.pt.infix {
